@@ -19,6 +19,7 @@ package netpoll
 
 import (
 	"context"
+	"unsafe"
 )
 
 func newPollDesc(fd int) *pollDesc {
@@ -51,6 +52,7 @@ func (pd *pollDesc) WaitWrite(ctx context.Context) (err error) {
 		}
 	}
 
+	vp(vpPdWait, unsafe.Pointer(pd), 0, 0)
 	select {
 	case <-pd.writeTrigger: // triggered by poller
 	case <-pd.closeTrigger: // triggered by poller
@@ -71,6 +73,7 @@ func (pd *pollDesc) WaitWrite(ctx context.Context) (err error) {
 }
 
 func (pd *pollDesc) onwrite(p Poll) error {
+	vp(vpPdEvent, unsafe.Pointer(pd), 1, 0)
 	select {
 	case <-pd.writeTrigger:
 	default:
@@ -81,6 +84,7 @@ func (pd *pollDesc) onwrite(p Poll) error {
 }
 
 func (pd *pollDesc) onhup(p Poll) error {
+	vp(vpPdEvent, unsafe.Pointer(pd), 2, 0)
 	select {
 	case <-pd.closeTrigger:
 	default:
